@@ -1,4 +1,6 @@
 import JominiModel.Proofs.TextTapeFaithful2
+import JominiModel.Proofs.TextTapeTotal
+import JominiModel.Proofs.TextTapeVar
 /-
 C01 growth, fragment 3: objects, arrays (of scalars, objects, arrays) and empty containers of any
 depth, under any valid layout.
@@ -28,6 +30,8 @@ theorem run_skip {n : Nat} {d d2 : Bytes} (h : skipWs d = some d2) (fuel : Nat) 
   cases fuel with
   | zero => rfl
   | succ f => simp only [run, step, h, skipWs_idem h]
+
+theorem ret_av_eq : ret .arrayValue = .arrayValue := rfl
 
 /-- `{` as a value (ObjectValue or ArrayValue): the placeholder is pushed. -/
 theorem step_open {n : Nat} {st : St} {g X : Bytes}
@@ -79,6 +83,16 @@ theorem step_key_ghost {n : Nat} {st : St} {g gc Y : Bytes} (hst : st.state = .k
   simp only [step, skipWs_blank hg, skipWs_cons _ blank_open (by decide), stepAt, hst]
   simp [stepKey, skipWs_blank hgc, skipWs_cons Y blank_close (by decide)]
 
+/-- Key sees a non-empty `{` right behind an unquoted value: that value is the header of the
+container. -/
+theorem step_key_header {n : Nat} {st : St} {T : List Tok} {sl : Slice} {gb X : Bytes} {c2 : UInt8} {r2 : Bytes}
+    (hst : st.state = .key) (hT : st.tape = T ++ [.unquoted sl]) (hg : Blank gb)
+    (hsk : skipWs X = some (c2 :: r2)) (hc2 : c2 ≠ 125) :
+    step n st (gb ++ 123 :: X) =
+      .cont { st with tape := T ++ [.header sl, .array 0 false], state := .parseOpen } (c2 :: r2) := by
+  simp only [step, skipWs_blank hg, skipWs_cons X blank_open (by decide), stepAt, hst]
+  simp [stepKey, hsk, hc2, hT]
+
 theorem braced_open {v : JVal} {a : Bytes} (hc : v.isBraced) (hv : JValidV v a) :
     ∃ g X, jrenderV v = g ++ 123 :: X ∧ Blank g := by
   cases v with
@@ -87,6 +101,156 @@ theorem braced_open {v : JVal} {a : Bytes} (hc : v.isBraced) (hv : JValidV v a) 
   | obj g g0 k g1 o v rest gc => simp only [JValidV] at hv; exact ⟨g, _, rfl, hv.1⟩
   | arrS g g0 s0 rest gc => simp only [JValidV] at hv; exact ⟨g, _, rfl, hv.1⟩
   | arrC g first rest gc => simp only [JValidV] at hv; exact ⟨g, _, rfl, hv.1⟩
+  | ghostIn g b1 b2 v => simp only [JValidV] at hv; exact ⟨g, _, rfl, hv.1⟩
+  | mixed g g0 k g1 o v rest gm m0 elems gc => simp only [JValidV] at hv; exact ⟨g, _, rfl, hv.1⟩
+
+/-- a braced value is its blanks, `{`, and its inside. -/
+theorem render_inner {v : JVal} (hc : v.isBraced) : jrenderV v = v.gap ++ 123 :: jinner v := by
+  cases v <;> simp [JVal.isBraced] at hc <;> simp [jrenderV, jinner, JVal.gap]
+
+theorem braced_gap {v : JVal} {a : Bytes} (hc : v.isBraced) (hv : JValidV v a) : Blank v.gap := by
+  cases v <;> simp [JVal.isBraced] at hc <;> simp only [JValidV] at hv <;> exact hv.1
+
+/-- ParseOpen sees `{ }`: a ghost object at the start of a container, skipped. -/
+theorem step_parseopen_ghost {n : Nat} {st : St} {b1 b2 Y : Bytes} (hst : st.state = .parseOpen)
+    (h1 : Blank b1) (h2 : Blank b2) :
+    step n st (b1 ++ 123 :: (b2 ++ 125 :: Y)) = .cont st Y := by
+  simp only [step, skipWs_blank h1, skipWs_cons _ blank_open (by decide), stepAt, hst]
+  simp [stepParseOpen, skipWs_blank h2, skipWs_cons Y blank_close (by decide)]
+
+/-- a scalar as a value (ObjectValue or ArrayValue). -/
+theorem step_valX {n : Nat} {st : St} {g : Bytes} {s : Scal} {X : Bytes}
+    (hst : st.state = .objectValue ∨ st.state = .arrayValue)
+    (hg : Blank g) (hs : s.ValidX) (hX : s.quoted = false → StartsBoundary X) :
+    step n st (g ++ (s.text ++ X)) =
+      .cont { st with tape := st.tape ++ [s.tok X], state := ret st.state } X := by
+  rcases hs with hv | hvar
+  · exact step_val hst hg hv hX
+  · have hs : s.ValidX := .inr hvar
+    have hc64 : ∃ r, s.text = 64 :: r := by
+      rcases hvar with ⟨hq, r, hb, _⟩ | ⟨hq, body, hb, _⟩
+      · exact ⟨r, by simp [Scal.text, hq, hb]⟩
+      · exact ⟨91 :: (body ++ [93]), by simp [Scal.text, hq, hb]⟩
+    obtain ⟨r, htx⟩ := hc64
+    have hlex := lexValue_scalX hs st.tape X hX
+    simp only [step, skipWs_blank hg, skipWs_scalX hs]
+    rw [htx] at hlex ⊢
+    simp only [List.cons_append] at hlex ⊢
+    rcases hst with hst | hst
+    · simp [stepAt, hst, stepObjectValue, hlex, ret]
+    · simp [stepAt, hst, stepArrayValue, hlex, ret]
+
+/-- KeyValueSeparator sees neither an operator nor `{`: the "key" just read was the first element of
+the array part — `MixedContainer` is inserted in front of it and the parser goes on in mixed mode. -/
+theorem step_kvs_mixed {n : Nat} {st : St} {T : List Tok} {l : Tok} {E : Bytes} {c : UInt8} {r : Bytes}
+    (hst : st.state = .kvs) (hT : st.tape = T ++ [l]) (hsk : skipWs E = some (c :: r))
+    (hop : lexOperator true (c :: r) = none) (hc : c ≠ 123) :
+    step n st E =
+      .cont { st with tape := T ++ [.mixedContainer, l], state := .arrayValue, mixed := true } (c :: r) := by
+  simp only [step, hsk, stepAt, hst]
+  simp [stepKvs, hop, hc, hT, insertBeforeLast]
+
+/-- ArrayValue sees `}` while the innermost container is an object (mixed container). -/
+theorem step_av_close_obj {n : Nat} {st : St} {gc X : Bytes} {P : Nat} {r : PState} (hst : st.state = .arrayValue)
+    (hg : Blank gc) (hp : st.parent ≠ 0) (hlt : st.parent < st.tape.length)
+    (hpt : st.tape[st.parent]? = some (.object P false))
+    (hcs : closeState st.tape[P]? = (false, r)) :
+    step n st (gc ++ 125 :: X) =
+      .cont { state := r, mixed := false, parent := P,
+              tape := st.tape.set st.parent (.object st.tape.length st.mixed) ++ [Tok.endTok st.parent] } X := by
+  simp only [step, skipWs_blank hg, skipWs_cons X blank_close (by decide), stepAt, hst]
+  simp only [stepArrayValue, hpt, endOf, hcs]
+  simp [hp, setTok, hlt]
+
+/-- a run of scalars in ArrayValue (whatever the mixed flag). -/
+theorem run_elems (n : Nat) : ∀ (es : List (Bytes × Scal)) (after : Bytes) (fuel : Nat) (st : St),
+    ElemsValid es after → st.state = .arrayValue →
+    run n (fuel + es.length) st (renderElems es ++ after) =
+      run n fuel { st with tape := st.tape ++ elemToks es after } after
+  | [], after, fuel, st, _, _ => by simp [renderElems, elemToks]
+  | (g, s) :: r, after, fuel, st, hv, hst => by
+    simp only [ElemsValid] at hv
+    have hfuel : fuel + ((g, s) :: r).length = (fuel + r.length) + 1 := by simp; omega
+    rw [hfuel]
+    simp only [renderElems, List.append_assoc]
+    rw [run_cont (step_valX (.inr hst) hv.1 hv.2.1 hv.2.2.1)]
+    rw [hst, ret_av_eq]
+    rw [run_elems n r after fuel _ hv.2.2.2 rfl]
+    congr 1
+    simp [elemToks, hst]
+
+theorem blank_rbr : isBlank 93 = false := by decide +kernel
+theorem blank_open_br : isBlank 91 = false := by decide +kernel
+
+/-- Key sees `[[name]` / `[[!name]`: a parameter definition (not the first thing in a container). -/
+theorem step_key_param {n : Nat} {st : St} {g0 : Bytes} {isU : Bool} {name : Bytes} (hst : st.state = .key)
+    (hg : Blank g0) (hn : ParamName name) (Y : Bytes) :
+    step n st (g0 ++ (91 :: 91 :: ((if isU then [33] else []) ++ (name ++ 93 :: Y)))) =
+      pdAfter st.mixed st.tape st.parent isU (name ++ 93 :: Y).length name Y := by
+  simp only [step, skipWs_blank hg, skipWs_cons _ blank_open_br (by decide), stepAt, hst]
+  simp only [stepKey, show ¬((91 : UInt8) = 125 ∨ (91 : UInt8) = 93) by decide, show (91 : UInt8) ≠ 123 by decide,
+    if_false, if_true, paramDef, List.getElem?_cons_succ, List.getElem?_cons_zero, ne_eq, not_true_eq_false,
+    paramDefPre, Bool.false_eq_true]
+  exact paramDefBody_name st.mixed st.tape st.parent isU hn Y
+
+/-- `pdAfter`, value form `[[name] value ]`. -/
+theorem pdAfter_val (mixed : Bool) (tape : List Tok) (parent : Nat) (isU : Bool) (nt : Nat) (name : Bytes)
+    {g1 g2 : Bytes} {val : Scal} (h1 : Blank g1) (h2 : Blank g2) (hv : val.Valid) (hq : val.quoted = false)
+    (R : Bytes) (hsb : StartsBoundary (g2 ++ 93 :: R)) :
+    pdAfter mixed tape parent isU nt name (g1 ++ (val.text ++ (g2 ++ 93 :: R))) =
+      .cont { state := .key, mixed := mixed, parent := parent,
+              tape := tape ++ [paramTok isU ⟨nt, name⟩] ++
+                [.unquoted ⟨(val.text ++ (g2 ++ 93 :: R)).length, val.bytes⟩] } R := by
+  have htext : val.text = val.bytes := by simp [Scal.text, hq]
+  have hvv := hv
+  unfold Scal.Valid at hvv
+  simp only [hq, Bool.false_eq_true, if_false] at hvv
+  have hne : val.bytes ≠ [] := by obtain ⟨_, c', r', hs', _⟩ := hvv; simp [hs']
+  have hsp := splitAtScalar_token hne hvv.1 hsb
+  unfold pdAfter
+  simp only [skipWs_blank h1, skipWs_scal hv]
+  simp only [htext, hsp, skipWs_blank h2, skipWs_cons R blank_rbr (by decide), if_true]
+
+/-- `pdAfter`, object form `[[name] key op …`. -/
+theorem pdAfter_obj (mixed : Bool) (tape : List Tok) (parent : Nat) (isU : Bool) (nt : Nat) (name : Bytes)
+    {g1 g2 : Bytes} {k : Scal} {o : Op} (h1 : Blank g1) (h2 : Blank g2) (hv : k.Valid) (hq : k.quoted = false)
+    (Z : Bytes) (hsb : StartsBoundary (g2 ++ o.text)) :
+    pdAfter mixed tape parent isU nt name (g1 ++ (k.text ++ (g2 ++ (o.text ++ Z)))) =
+      .cont { state := .kvs, mixed := mixed, parent := (tape ++ [paramTok isU ⟨nt, name⟩]).length,
+              tape := tape ++ [paramTok isU ⟨nt, name⟩] ++
+                [.object parent false, .unquoted ⟨(k.text ++ (g2 ++ (o.text ++ Z))).length, k.bytes⟩] }
+        (o.text ++ Z) := by
+  have htext : k.text = k.bytes := by simp [Scal.text, hq]
+  have hvv := hv
+  unfold Scal.Valid at hvv
+  simp only [hq, Bool.false_eq_true, if_false] at hvv
+  have hne : k.bytes ≠ [] := by obtain ⟨_, c', r', hs', _⟩ := hvv; simp [hs']
+  have hsb' : StartsBoundary (g2 ++ (o.text ++ Z)) := by
+    rcases hsb with h | ⟨c, r, h, hc⟩
+    · have : o.text ≠ [] := by cases o <;> simp [Op.text]
+      simp at h; exact absurd h.2 this
+    · exact .inr ⟨c, r ++ Z, by rw [← List.cons_append, ← h]; simp, hc⟩
+  have hsp := splitAtScalar_token hne hvv.1 hsb'
+  have h93 : ∀ c r, o.text = c :: r → c ≠ 93 := by
+    intro c r h; cases o <;> simp [Op.text] at h <;> (rw [← h.1]; decide)
+  unfold pdAfter
+  simp only [skipWs_blank h1, skipWs_scal hv]
+  simp only [htext, hsp, skipWs_blank h2, skipWs_op]
+  cases ho : o.text with
+  | nil => cases o <;> simp [Op.text] at ho
+  | cons c r => simp [h93 c r ho]
+
+/-- Key sees `]`: like `}`. -/
+theorem step_key_close_br {n : Nat} {st : St} {gc X : Bytes} {P : Nat} {r : PState} (hst : st.state = .key)
+    (hg : Blank gc) (hp : st.parent ≠ 0) (hlt : st.parent < st.tape.length)
+    (hpt : st.tape[st.parent]? = some (.object P false))
+    (hcs : closeState st.tape[P]? = (false, r)) :
+    step n st (gc ++ 93 :: X) =
+      .cont { state := r, mixed := false, parent := P,
+              tape := (st.tape ++ [Tok.endTok st.parent]).set st.parent (.object st.tape.length st.mixed) } X := by
+  simp only [step, skipWs_blank hg, skipWs_cons X blank_rbr (by decide), stepAt, hst]
+  have hlt' : st.parent < st.tape.length + 1 := by omega
+  simp [stepKey, hpt, endOf, hcs, hp, setTok, hlt']
 
 theorem closeState_append {T R : List Tok} {P : Nat} (h : P < T.length) :
     closeState (T ++ R)[P]? = closeState T[P]? := by
@@ -159,6 +323,11 @@ theorem step_key_close' {n : Nat} {st : St} {gc X : Bytes} {P : Nat} {r : PState
 
 /-! ### bookkeeping -/
 
+theorem len_elemToks : ∀ (es : List (Bytes × Scal)) (a : Bytes), (elemToks es a).length = es.length
+  | [], _ => rfl
+  | (_, _) :: r, a => by simp [elemToks, len_elemToks r a]
+
+
 mutual
 theorem len_jtapeV : ∀ (v : JVal) (b : Nat) (a : Bytes), (jtapeV v b a).length = jcntV v
   | .scal _ _, _, _ => by simp [jtapeV, jcntV]
@@ -172,6 +341,11 @@ theorem len_jtapeV : ∀ (v : JVal) (b : Nat) (a : Bytes), (jtapeV v b a).length
   | .arrC _ first rest _, b, a => by
     simp only [jtapeV, jcntV, List.length_append, List.length_cons, List.length_nil, len_jtapeV first, len_jtapeVs rest]
     try omega
+  | .ghostIn _ _ _ v, b, a => by simp only [jtapeV, jcntV, len_jtapeV v]
+  | .mixed _ _ _ _ o v rest _ _ elems _, b, a => by
+    simp only [jtapeV, jcntV, List.length_append, List.length_cons, List.length_nil, len_jtapeV v, len_jtapeF rest,
+      len_elemToks]
+    omega
 theorem len_jtapeF : ∀ (fs : JFields) (b : Nat) (a : Bytes), (jtapeF fs b a).length = jcntF fs
   | .nil, _, _ => by simp [jtapeF, jcntF]
   | .cons _ _ _ o v rest, b, a => by
@@ -181,6 +355,16 @@ theorem len_jtapeF : ∀ (fs : JFields) (b : Nat) (a : Bytes), (jtapeF fs b a).l
     simp only [jtapeF, jcntF, List.length_append, List.length_cons, List.length_nil, len_jtapeV v, len_jtapeF rest]
     try omega
   | .ghost _ _ rest, b, a => by simp only [jtapeF, jcntF, len_jtapeF rest]
+  | .consHdr _ _ _ o _ _ body rest, b, a => by
+    simp only [jtapeF, jcntF, List.length_append, List.length_cons, List.length_nil, len_jtapeV body, len_jtapeF rest]
+    try omega
+  | .paramVal _ _ _ _ _ _ rest, b, a => by
+    simp only [jtapeF, jcntF, List.length_append, List.length_cons, List.length_nil, len_jtapeF rest]
+    try omega
+  | .paramObj _ _ _ _ _ _ o v inner _ rest, b, a => by
+    simp only [jtapeF, jcntF, List.length_append, List.length_cons, List.length_nil, len_jtapeV v, len_jtapeF inner,
+      len_jtapeF rest]
+    try omega
 theorem len_jtapeVs : ∀ (vs : JVals) (b : Nat) (a : Bytes), (jtapeVs vs b a).length = jcntVs vs
   | .nil, _, _ => by simp [jtapeVs, jcntVs]
   | .cons v rest, b, a => by
@@ -202,7 +386,7 @@ theorem head_jrenderV (v : JVal) (after Z : Bytes) (hv : JValidV v after) :
   | scal g s =>
     simp only [JValidV] at hv
     simp only [jrenderV, List.append_assoc]
-    exact head_blank_scal hv.1 hv.2.1 Z
+    exact head_blank_scalX hv.1 hv.2.1 Z
   | empty g gc =>
     simp only [JValidV] at hv
     simp only [jrenderV, List.append_assoc, List.cons_append]; exact hb _ hv.1
@@ -215,6 +399,12 @@ theorem head_jrenderV (v : JVal) (after Z : Bytes) (hv : JValidV v after) :
   | arrC g first rest gc =>
     simp only [JValidV] at hv
     simp only [jrenderV, List.append_assoc, List.cons_append]; exact hb _ hv.1
+  | ghostIn g b1 b2 v =>
+    simp only [JValidV] at hv
+    simp only [jrenderV, List.append_assoc, List.cons_append]; exact hb _ hv.1
+  | mixed g g0 k g1 o v rest gm m0 elems gc =>
+    simp only [JValidV] at hv
+    simp only [jrenderV, List.append_assoc, List.cons_append]; exact hb _ hv.1
 
 /-- a non-empty container starts with blanks and `{`. -/
 theorem container_open {v : JVal} {a : Bytes} (hc : v.isContainer) (hv : JValidV v a) :
@@ -225,16 +415,18 @@ theorem container_open {v : JVal} {a : Bytes} (hc : v.isContainer) (hv : JValidV
   | obj g g0 k g1 o v rest gc => simp only [JValidV] at hv; exact ⟨g, _, rfl, hv.1⟩
   | arrS g g0 s0 rest gc => simp only [JValidV] at hv; exact ⟨g, _, rfl, hv.1⟩
   | arrC g first rest gc => simp only [JValidV] at hv; exact ⟨g, _, rfl, hv.1⟩
+  | ghostIn g b1 b2 v => simp only [JValidV] at hv; exact ⟨g, _, rfl, hv.1⟩
+  | mixed g g0 k g1 o v rest gm m0 elems gc => simp only [JValidV] at hv; exact ⟨g, _, rfl, hv.1⟩
 
 /-- …and what follows the `{` is not a `}`. -/
 theorem container_head {v : JVal} {a : Bytes} (hc : v.isContainer) (hv : JValidV v a) (W : Bytes) :
     ∃ g X, jrenderV v ++ W = g ++ 123 :: X ∧ Blank g ∧ ∃ c2 r2, skipWs X = some (c2 :: r2) ∧ c2 ≠ 125 := by
-  have hsc : ∀ {g0 : Bytes} {s : Scal} (Y : Bytes), Blank g0 → s.Valid →
+  have hsc : ∀ {g0 : Bytes} {s : Scal} (Y : Bytes), Blank g0 → s.ValidX →
       ∃ c2 r2, skipWs (g0 ++ (s.text ++ Y)) = some (c2 :: r2) ∧ c2 ≠ 125 := by
     intro g0 s Y h0 hs
     obtain ⟨c, r, htx, _, _, h125, _⟩ := hs.head
     refine ⟨c, r ++ Y, ?_, h125⟩
-    rw [skipWs_blank h0, skipWs_scal hs, htx]; rfl
+    rw [skipWs_blank h0, skipWs_scalX hs, htx]; rfl
   cases v with
   | scal g s => simp [JVal.isContainer] at hc
   | empty g gc => simp [JVal.isContainer] at hc
@@ -253,6 +445,15 @@ theorem container_head {v : JVal} {a : Bytes} (hc : v.isContainer) (hv : JValidV
     rw [hr]
     simp only [List.append_assoc, List.cons_append]
     exact ⟨_, by rw [skipWs_blank hg', skipWs_cons _ blank_open (by decide)], by decide⟩
+  | ghostIn g b1 b2 v =>
+    simp only [JValidV] at hv
+    refine ⟨g, _, by simp only [jrenderV, List.append_assoc, List.cons_append]; rfl, hv.1, 123,
+      b2 ++ 125 :: (jinner v ++ W), ?_, by decide⟩
+    rw [skipWs_blank hv.2.1, skipWs_cons _ blank_open (by decide)]
+  | mixed g g0 k g1 o v rest gm m0 elems gc =>
+    simp only [JValidV] at hv
+    refine ⟨g, _, by simp only [jrenderV, List.append_assoc, List.cons_append]; rfl, hv.1, ?_⟩
+    exact hsc _ hv.2.1 hv.2.2.2.2.2.1
 
 structure Ctx3 (st : St) : Prop where
   mixed : st.mixed = false
@@ -294,11 +495,13 @@ theorem skipWs_jrenderV_some {v : JVal} {a : Bytes} (hv : JValidV v a) (W : Byte
   cases v with
   | scal g s =>
     simp only [JValidV] at hv
-    exact ⟨_, by simp only [jrenderV, List.append_assoc]; rw [skipWs_blank hv.1, skipWs_scal hv.2.1]⟩
+    exact ⟨_, by simp only [jrenderV, List.append_assoc]; rw [skipWs_blank hv.1, skipWs_scalX hv.2.1]⟩
   | empty g gc => simp only [JValidV] at hv; simpa [jrenderV] using ho _ hv.1
   | obj g g0 k g1 o v rest gc => simp only [JValidV] at hv; simpa [jrenderV] using ho _ hv.1
   | arrS g g0 s0 rest gc => simp only [JValidV] at hv; simpa [jrenderV] using ho _ hv.1
   | arrC g first rest gc => simp only [JValidV] at hv; simpa [jrenderV] using ho _ hv.1
+  | ghostIn g b1 b2 v => simp only [JValidV] at hv; simpa [jrenderV] using ho _ hv.1
+  | mixed g g0 k g1 o v rest gm m0 elems gc => simp only [JValidV] at hv; simpa [jrenderV] using ho _ hv.1
 
 theorem skipWs_elems_some {vs : JVals} {a : Bytes} (hv : JValidVs vs a) {gc : Bytes} (hgc : Blank gc) (Y : Bytes) :
     ∃ d2, skipWs (jrenderVs vs ++ (gc ++ 125 :: Y)) = some d2 := by
@@ -319,6 +522,34 @@ theorem Scal.tok_plain (k : Scal) (X : Bytes) :
     ∀ e m, some (k.tok X) ≠ some (Tok.array e m) ∧ some (k.tok X) ≠ some (Tok.object e m) := by
   intro e m; unfold Scal.tok; split <;> simp
 
+/-- the context after a plain token has been pushed in Key state (possibly onto the empty tape). -/
+theorem Ctx3.after_plain {st : St} (hc : Ctx3 st) (hst : st.state = .key) (t : Tok)
+    (ht : ∀ e m, some t ≠ some (Tok.array e m) ∧ some t ≠ some (Tok.object e m))
+    (R : List Tok) (s : PState) (hs : ret s = .key) :
+    Ctx3 (St.mk s st.mixed st.parent (st.tape ++ t :: R)) := by
+  by_cases hne : st.tape = []
+  · have hp : st.parent = 0 := by
+      rcases hc.plt with h | h
+      · simp [hne] at h
+      · exact h
+    refine ⟨hc.mixed, ?_, .inr hp, ?_⟩
+    · intro e m; simp only [hne, List.nil_append, List.getElem?_cons_zero]; exact ht e m
+    · simp only [hne, hp, List.nil_append, List.getElem?_cons_zero, hs]
+      exact closeState_plain ht
+  · exact hc.append hne (t :: R) s (by rw [hs, hst]; rfl)
+
+theorem paramTok_plain (b : Bool) (sl : Slice) :
+    ∀ e m, some (paramTok b sl) ≠ some (Tok.array e m) ∧ some (paramTok b sl) ≠ some (Tok.object e m) := by
+  intro e m; cases b <;> simp [paramTok]
+
+/-- closing the object of a parameter block whose parent is described by `Ctx3` (the tape in
+front of the block may be empty). -/
+theorem Ctx3.close_after_plain {st : St} (hc : Ctx3 st) (hst : st.state = .key) (t : Tok)
+    (ht : ∀ e m, some t ≠ some (Tok.array e m) ∧ some t ≠ some (Tok.object e m)) (R : List Tok) :
+    closeState (st.tape ++ t :: R)[st.parent]? = (false, .key) := by
+  have := (hc.after_plain hst t ht R .key rfl).close
+  simpa using this
+
 /-- the context after a key has been pushed in Key state (possibly onto the empty tape). -/
 theorem Ctx3.after_key {st : St} (hc : Ctx3 st) (hst : st.state = .key) (k : Scal) (X : Bytes)
     (R : List Tok) (s : PState) (hs : ret s = .key) :
@@ -335,6 +566,20 @@ theorem Ctx3.after_key {st : St} (hc : Ctx3 st) (hst : st.state = .key) (k : Sca
   · have := hc.append hne (k.tok X :: R) s (by rw [hs, hst]; rfl)
     exact this
 
+theorem skipWs_elemsS_some {es : List (Bytes × Scal)} {a : Bytes} (hv : ElemsValid es a) {gc : Bytes}
+    (hgc : Blank gc) (Y : Bytes) : ∃ d2, skipWs (renderElems es ++ (gc ++ 125 :: Y)) = some d2 := by
+  cases es with
+  | nil => exact ⟨_, by simp only [renderElems, List.nil_append]; rw [skipWs_blank hgc, skipWs_cons Y blank_close (by decide)]⟩
+  | cons e r =>
+    obtain ⟨g, s⟩ := e
+    simp only [ElemsValid] at hv
+    exact ⟨_, by simp only [renderElems, List.append_assoc]; rw [skipWs_blank hv.1, skipWs_scalX hv.2.1]⟩
+
+theorem set_append_second {α} (A : List α) (a b X : α) (R : List α) :
+    (A ++ a :: b :: R).set (A.length + 1) X = A ++ a :: X :: R := by
+  rw [List.set_append_right _ _ (by omega)]
+  simp
+
 /-- two states are equal when their fields are. -/
 theorem St.ext' {a b : St} (h1 : a.state = b.state) (h2 : a.mixed = b.mixed) (h3 : a.parent = b.parent)
     (h4 : a.tape = b.tape) : a = b := by
@@ -350,7 +595,7 @@ theorem jrun_V (n : Nat) : ∀ (v : JVal) (after : Bytes) (fuel : Nat) (st : St)
   | .scal g s, after, fuel, st, hv, hst, _, _ => by
     simp only [JValidV] at hv
     simp only [jstepsV, jrenderV, jtapeV, List.append_assoc]
-    rw [run_cont (step_val hst hv.1 hv.2.1 hv.2.2)]
+    rw [run_cont (step_valX hst hv.1 hv.2.1 hv.2.2)]
   | .empty g gc, after, fuel, st, hv, hst, hc, hne => by
     simp only [JValidV] at hv
     have hfuel : fuel + jstepsV (.empty g gc) = (fuel + 1) + 1 := by simp only [jstepsV]
@@ -370,7 +615,7 @@ theorem jrun_V (n : Nat) : ∀ (v : JVal) (after : Bytes) (fuel : Nat) (st : St)
     rw [hfuel]
     simp only [jrenderV, List.append_assoc, List.cons_append, List.nil_append]
     rw [run_cont (step_open hst hg)]
-    rw [run_cont (step_parseopen_field (T := st.tape) rfl (by simpa using hc.mixed) rfl h0 hk h1 hkb)]
+    rw [run_cont (step_parseopen_fieldX (T := st.tape) rfl (by simpa using hc.mixed) rfl h0 hk h1 hkb)]
     have hop := step_kvs_op (n := n) (g := []) (o := o)
       (st := { state := .kvs, mixed := false, parent := st.tape.length,
                tape := st.tape ++ [.object st.parent false,
@@ -406,7 +651,7 @@ theorem jrun_V (n : Nat) : ∀ (v : JVal) (after : Bytes) (fuel : Nat) (st : St)
     rw [run_cont (step_open hst hg)]
     -- the first scalar decides: array
     obtain ⟨d2, hd2⟩ := skipWs_elems_some hvr hgc after
-    rw [run_cont (step_parseopen_scalar_arr (T := st.tape) rfl (by simpa using hc.mixed) rfl h0 hs0 hsb hd2
+    rw [run_cont (step_parseopen_scalar_arrX (T := st.tape) rfl (by simpa using hc.mixed) rfl h0 hs0 hsb hd2
       (hpk d2 hd2))]
     rw [← run_skip hd2]
     simp only [List.append_assoc, List.cons_append, List.nil_append]
@@ -450,6 +695,73 @@ theorem jrun_V (n : Nat) : ∀ (v : JVal) (after : Bytes) (fuel : Nat) (st : St)
     rw [List.set_append_right _ _ (Nat.le_refl _)]
     simp only [Nat.sub_self, List.set_cons_zero, List.append_assoc, List.cons_append]
     simp only [Nat.add_assoc, Nat.add_comm, Nat.add_left_comm]
+  | .ghostIn g b1 b2 v, after, fuel, st, hv, hst, hc, hne => by
+    simp only [JValidV] at hv
+    obtain ⟨hg, h1, h2, hbr, _, hvv⟩ := hv
+    have hsteps : 1 ≤ jstepsV v := by cases v <;> simp [JVal.isBraced] at hbr <;> simp [jstepsV] <;> omega
+    have hfuel : fuel + jstepsV (.ghostIn g b1 b2 v) = ((fuel + jstepsV v - 1) + 1) + 1 := by
+      simp only [jstepsV]; omega
+    rw [hfuel]
+    simp only [jrenderV, List.append_assoc, List.cons_append, List.nil_append]
+    rw [run_cont (step_open hst hg)]
+    rw [run_cont (step_parseopen_ghost rfl h1 h2)]
+    -- from here on the parser is where it would be behind the `{` of `v` itself
+    have hback := run_cont (n := n) (m := fuel + jstepsV v - 1) (step_open (X := jinner v ++ after) hst
+      (braced_gap hbr hvv))
+    rw [← hback]
+    have hr : v.gap ++ 123 :: (jinner v ++ after) = jrenderV v ++ after := by
+      rw [render_inner hbr]; simp
+    rw [hr, show fuel + jstepsV v - 1 + 1 = fuel + jstepsV v by omega]
+    rw [jrun_V n v after fuel st hvv hst hc hne]
+    simp only [jtapeV]
+  | .mixed g g0 k g1 o v rest gm m0 elems gc, after, fuel, st, hv, hst, hc, hne => by
+    simp only [JValidV] at hv
+    obtain ⟨hg, h0, h1, hgm, hgc, hk, hkb, hvv, hvr, hm0, hm0b, hmx, hel⟩ := hv
+    have hlen : 0 < st.tape.length := List.length_pos_iff.2 hne
+    have hfuel : fuel + jstepsV (.mixed g g0 k g1 o v rest gm m0 elems gc) =
+        (((((((fuel + 1) + elems.length) + 1) + 1) + jstepsF rest) + jstepsV v) + 1 + 1) + 1 := by
+      simp only [jstepsV]; omega
+    rw [hfuel]
+    simp only [jrenderV, List.append_assoc, List.cons_append, List.nil_append]
+    rw [run_cont (step_open hst hg)]
+    rw [run_cont (step_parseopen_fieldX (T := st.tape) rfl (by simpa using hc.mixed) rfl h0 hk h1 hkb)]
+    have hop := step_kvs_op (n := n) (g := []) (o := o)
+      (st := { state := .kvs, mixed := false, parent := st.tape.length,
+               tape := st.tape ++ [.object st.parent false,
+                 k.tok (g1 ++ (o.text ++ (jrenderV v ++ (jrenderF rest ++ (gm ++ (m0.text ++
+                   (renderElems elems ++ (gc ++ 125 :: after))))))))] })
+      (Y := jrenderV v ++ (jrenderF rest ++ (gm ++ (m0.text ++ (renderElems elems ++ (gc ++ 125 :: after))))))
+      rfl rfl .nil (head_jrenderV v _ _ hvv)
+    simp only [List.nil_append] at hop
+    rw [run_cont hop]
+    simp only [List.append_assoc, List.cons_append, List.nil_append]
+    rw [jrun_V n v (jrenderF rest ++ (gm ++ (m0.text ++ (renderElems elems ++ (gc ++ 125 :: after))))) _ _ hvv
+      (.inl rfl) (hc.inner hne (.object st.parent false) _ .objectValue rfl) (by simp)]
+    simp only [ret_ov, List.append_assoc, List.cons_append, List.nil_append]
+    rw [jrun_F n rest (gm ++ (m0.text ++ (renderElems elems ++ (gc ++ 125 :: after)))) _ _ hvr rfl
+      (hc.inner hne (.object st.parent false) _ .key rfl)]
+    -- the first element of the array part is first read as a key …
+    rw [run_cont (step_key_scalX rfl hgm hm0 hm0b)]
+    -- … until KeyValueSeparator finds no operator behind it
+    obtain ⟨d2, hd2⟩ := skipWs_elemsS_some hel hgc after
+    obtain ⟨c, r, rfl, _⟩ := skipWsAux_some _ false d2 hd2
+    obtain ⟨hop2, hc123⟩ := hmx _ hd2
+    rw [run_cont (step_kvs_mixed (l := m0.tok (renderElems elems ++ (gc ++ 125 :: after))) rfl
+      rfl hd2 hop2 (by simpa using hc123))]
+    rw [← run_skip hd2]
+    simp only [List.append_assoc, List.cons_append, List.nil_append]
+    -- the other elements, then `}`
+    rw [run_elems n elems (gc ++ 125 :: after) _ _ hel rfl]
+    rw [run_cont (step_av_close_obj (P := st.parent) (r := ret st.state) rfl hgc (by simp; omega) (by simp)
+      (by simp) (by simpa using hc.close_append hne _))]
+    congr 1
+    refine St.ext' rfl hc.mixed.symm rfl ?_
+    simp only [jtapeV, List.length_append, List.length_cons, List.length_nil, len_jtapeV, len_jtapeF, len_elemToks,
+      List.append_assoc, List.cons_append, List.nil_append]
+    rw [List.set_append_right _ _ (Nat.le_refl _)]
+    simp only [Nat.sub_self, List.set_cons_zero, List.append_assoc, List.cons_append]
+    simp only [show (2 : Nat) = 1 + 1 from rfl]
+    simp only [Nat.add_assoc, Nat.add_comm, Nat.add_left_comm]
 theorem jrun_F (n : Nat) : ∀ (fs : JFields) (after : Bytes) (fuel : Nat) (st : St),
     JValidF fs after → st.state = .key → Ctx3 st →
     run n (fuel + jstepsF fs) st (jrenderF fs ++ after) =
@@ -470,7 +782,7 @@ theorem jrun_F (n : Nat) : ∀ (fs : JFields) (after : Bytes) (fuel : Nat) (st :
         simp at h; exact absurd h.2 this
       · exact .inr ⟨c, r ++ (jrenderV v ++ (jrenderF rest ++ after)), by
           rw [← List.cons_append, ← h]; simp, hc'⟩
-    rw [run_cont (step_key_scal hst h0 hk hkX)]
+    rw [run_cont (step_key_scalX hst h0 hk hkX)]
     rw [run_cont (step_kvs_op (by simp) (by simpa using hc.mixed) h1 (head_jrenderV v _ _ hvv))]
     simp only [List.append_assoc, List.cons_append, List.nil_append]
     rw [jrun_V n v (jrenderF rest ++ after) _ _ hvv (.inl rfl)
@@ -489,7 +801,7 @@ theorem jrun_F (n : Nat) : ∀ (fs : JFields) (after : Bytes) (fuel : Nat) (st :
       simp only [jstepsF]; omega
     rw [hfuel]
     simp only [jrenderF, List.append_assoc]
-    rw [run_cont (step_key_scal hst h0 hk hkb)]
+    rw [run_cont (step_key_scalX hst h0 hk hkb)]
     -- no operator: KeyValueSeparator hands the `{` to ObjectValue
     obtain ⟨gv, Xv, hrv, hgv⟩ := braced_open hbr hvv
     have hdata : jrenderV v ++ (jrenderF rest ++ after) = gv ++ 123 :: (Xv ++ (jrenderF rest ++ after)) := by
@@ -517,6 +829,137 @@ theorem jrun_F (n : Nat) : ∀ (fs : JFields) (after : Bytes) (fuel : Nat) (st :
     rw [run_cont (step_key_ghost hst hv.1 hv.2.1)]
     rw [jrun_F n rest after _ _ hv.2.2 hst hc]
     simp only [jtapeF]
+  | .consHdr g0 k g1 o gh h body rest, after, fuel, st, hv, hst, hc => by
+    simp only [JValidF] at hv
+    obtain ⟨h0, h1, hgh, hk, hkb, hh, hhq, hsb, hbc, hvb, hvr⟩ := hv
+    have hsteps : 1 ≤ jstepsV body := by
+      cases body <;> simp [JVal.isContainer] at hbc <;> simp [jstepsV] <;> omega
+    have hfuel : fuel + jstepsF (.consHdr g0 k g1 o gh h body rest) =
+        ((((fuel + jstepsF rest) + jstepsV body - 1) + 1) + 1 + 1) + 1 := by
+      simp only [jstepsF]; omega
+    rw [hfuel]
+    simp only [jrenderF, List.append_assoc]
+    have hkX : k.quoted = false →
+        StartsBoundary (g1 ++ (o.text ++ (gh ++ (h.text ++ (jrenderV body ++ (jrenderF rest ++ after)))))) := by
+      intro hq
+      rcases hkb hq with he | ⟨c, r, he, hc'⟩
+      · have : o.text ≠ [] := by cases o <;> simp [Op.text]
+        simp at he; exact absurd he.2 this
+      · exact .inr ⟨c, r ++ (gh ++ (h.text ++ (jrenderV body ++ (jrenderF rest ++ after)))), by
+          rw [← List.cons_append, ← he]; simp, hc'⟩
+    rw [run_cont (step_key_scalX hst h0 hk hkX)]
+    rw [run_cont (step_kvs_op (by simp) (by simpa using hc.mixed) h1 (head_blank_scal hgh hh _))]
+    -- the header scalar is first read as an ordinary value
+    rw [run_cont (step_val_scal (by simp) hgh hh (fun _ => hsb))]
+    simp only [List.append_assoc, List.cons_append, List.nil_append]
+    -- then Key sees the `{`
+    obtain ⟨gb, X, hrb, hgb, c2, r2, hsk, hc2⟩ := container_head hbc hvb (jrenderF rest ++ after)
+    have htok : h.tok (jrenderV body ++ (jrenderF rest ++ after)) =
+        .unquoted ⟨h.bytes.length + (jrenderV body ++ (jrenderF rest ++ after)).length, h.bytes⟩ := by
+      simp [Scal.tok, hhq]
+    rw [htok, hrb]
+    rw [run_cont (step_key_header (T := st.tape ++ (k.tok (g1 ++ (o.text ++ (gh ++ (h.text ++ (gb ++ 123 :: X))))) :: o.toks))
+      (sl := ⟨h.bytes.length + (gb ++ 123 :: X).length, h.bytes⟩) rfl (by simp) hgb hsk hc2)]
+    rw [← run_skip hsk]
+    -- from here on the parser is where it would be behind the `{` of `body` read as a value
+    have hback := run_cont (n := n) (m := fuel + jstepsF rest + jstepsV body - 1)
+      (step_open (g := gb) (X := X)
+        (st := St.mk .objectValue st.mixed st.parent
+          (st.tape ++ (k.tok (g1 ++ (o.text ++ (gh ++ (h.text ++ (gb ++ 123 :: X))))) :: o.toks) ++
+            [.header ⟨h.bytes.length + (gb ++ 123 :: X).length, h.bytes⟩])) (.inl rfl) hgb)
+    simp only [List.append_assoc, List.cons_append, List.nil_append] at hback ⊢
+    rw [← hback, ← hrb, show fuel + jstepsF rest + jstepsV body - 1 + 1 = (fuel + jstepsF rest) + jstepsV body by omega]
+    have hctx := hc.after_key hst k (g1 ++ (o.text ++ (gh ++ (h.text ++ (jrenderV body ++ (jrenderF rest ++ after))))))
+      (o.toks ++ [.header ⟨h.bytes.length + (jrenderV body ++ (jrenderF rest ++ after)).length, h.bytes⟩])
+      .objectValue rfl
+    rw [jrun_V n body (jrenderF rest ++ after) _ _ hvb (.inl rfl) hctx (by simp)]
+    simp only [ret_ov, List.append_assoc, List.cons_append, List.nil_append]
+    have hctx2 := hc.after_key hst k (g1 ++ (o.text ++ (gh ++ (h.text ++ (jrenderV body ++ (jrenderF rest ++ after))))))
+      (o.toks ++ ([.header ⟨h.bytes.length + (jrenderV body ++ (jrenderF rest ++ after)).length, h.bytes⟩] ++
+        jtapeV body (st.tape ++ k.tok (g1 ++ (o.text ++ (gh ++ (h.text ++ (jrenderV body ++ (jrenderF rest ++ after)))))) ::
+          (o.toks ++ [.header ⟨h.bytes.length + (jrenderV body ++ (jrenderF rest ++ after)).length, h.bytes⟩])).length
+          (jrenderF rest ++ after)))
+      .key rfl
+    simp only [List.append_assoc, List.cons_append, List.nil_append] at hctx2
+    rw [jrun_F n rest after _ _ hvr rfl hctx2]
+    congr 1
+    refine St.ext' hst.symm rfl rfl ?_
+    simp only [jtapeF, List.length_append, List.length_cons, List.length_nil, len_jtapeV, List.append_assoc,
+      List.cons_append, List.nil_append]
+    simp only [Nat.add_assoc, Nat.add_comm, Nat.add_left_comm, Nat.zero_add]
+  | .paramVal g0 isU name g1 val g2 rest, after, fuel, st, hv, hst, hc => by
+    simp only [JValidF] at hv
+    obtain ⟨h0, h1, h2, hn, hval, hq, hsb, hvr⟩ := hv
+    have hfuel : fuel + jstepsF (.paramVal g0 isU name g1 val g2 rest) = (fuel + jstepsF rest) + 1 := by
+      simp only [jstepsF]; omega
+    rw [hfuel]
+    simp only [jrenderF, paramOpen, List.append_assoc, List.cons_append, List.nil_append]
+    have hstep := step_key_param (n := n) (isU := isU) hst h0 hn
+      (g1 ++ (val.text ++ (g2 ++ 93 :: (jrenderF rest ++ after))))
+    rw [pdAfter_val _ _ _ _ _ _ h1 h2 hval hq _ hsb] at hstep
+    rw [run_cont hstep]
+    simp only [List.append_assoc, List.cons_append, List.nil_append]
+    rw [jrun_F n rest after _ _ hvr rfl (hc.after_plain hst _ (paramTok_plain _ _) _ .key rfl)]
+    congr 1
+    refine St.ext' hst.symm rfl rfl ?_
+    simp only [jtapeF, List.length_append, List.length_cons, List.length_nil, List.append_assoc,
+      List.cons_append, List.nil_append]
+  | .paramObj g0 isU name g1 k g2 o v inner gc rest, after, fuel, st, hv, hst, hc => by
+    simp only [JValidF] at hv
+    obtain ⟨h0, h1, h2, hgc, hn, hk, hq, hsb, hvv, hvi, hvr⟩ := hv
+    have hfuel : fuel + jstepsF (.paramObj g0 isU name g1 k g2 o v inner gc rest) =
+        (((((fuel + jstepsF rest) + 1) + jstepsF inner) + jstepsV v) + 1) + 1 := by
+      simp only [jstepsF]; omega
+    rw [hfuel]
+    simp only [jrenderF, paramOpen, List.append_assoc, List.cons_append, List.nil_append]
+    have hstep := step_key_param (n := n) (isU := isU) hst h0 hn
+      (g1 ++ (k.text ++ (g2 ++ (o.text ++ (jrenderV v ++ (jrenderF inner ++ (gc ++ 93 :: (jrenderF rest ++ after))))))))
+    rw [pdAfter_obj _ _ _ _ _ _ h1 h2 hk hq _ hsb] at hstep
+    rw [run_cont hstep]
+    -- operator
+    have hop := step_kvs_op (n := n) (g := []) (o := o)
+      (st := St.mk .kvs st.mixed
+        (st.tape ++ [paramTok isU ⟨(name ++ 93 :: (g1 ++ (k.text ++ (g2 ++ (o.text ++ (jrenderV v ++
+          (jrenderF inner ++ (gc ++ 93 :: (jrenderF rest ++ after))))))))).length, name⟩]).length
+        (st.tape ++ [paramTok isU ⟨(name ++ 93 :: (g1 ++ (k.text ++ (g2 ++ (o.text ++ (jrenderV v ++
+          (jrenderF inner ++ (gc ++ 93 :: (jrenderF rest ++ after))))))))).length, name⟩] ++
+          [.object st.parent false, .unquoted ⟨(k.text ++ (g2 ++ (o.text ++ (jrenderV v ++
+            (jrenderF inner ++ (gc ++ 93 :: (jrenderF rest ++ after))))))).length, k.bytes⟩]))
+      (Y := jrenderV v ++ (jrenderF inner ++ (gc ++ 93 :: (jrenderF rest ++ after)))) rfl hc.mixed .nil
+      (head_jrenderV v _ _ hvv)
+    simp only [List.nil_append] at hop
+    rw [run_cont hop]
+    simp only [List.append_assoc, List.cons_append, List.nil_append, hc.mixed]
+    -- the context inside the block: the object sits right behind the parameter token
+    have hctx0 := hc.after_plain hst (paramTok isU ⟨(name ++ 93 :: (g1 ++ (k.text ++ (g2 ++ (o.text ++ (jrenderV v ++
+          (jrenderF inner ++ (gc ++ 93 :: (jrenderF rest ++ after))))))))).length, name⟩) (paramTok_plain _ _) [] .key rfl
+    have hne1 : (St.mk PState.key st.mixed st.parent (st.tape ++ [paramTok isU ⟨(name ++ 93 :: (g1 ++ (k.text ++
+        (g2 ++ (o.text ++ (jrenderV v ++ (jrenderF inner ++ (gc ++ 93 :: (jrenderF rest ++ after))))))))).length,
+        name⟩])).tape ≠ [] := by simp
+    have hin := fun R s h => Ctx3.inner hctx0 hne1 (.object st.parent false) R s h
+    simp only [List.length_append, List.length_cons, List.length_nil, List.append_assoc, List.cons_append,
+      List.nil_append] at hin
+    rw [jrun_V n v (jrenderF inner ++ (gc ++ 93 :: (jrenderF rest ++ after))) _ _ hvv (.inl rfl)
+      (by simpa using hin _ .objectValue rfl) (by simp)]
+    simp only [ret_ov, List.append_assoc, List.cons_append, List.nil_append]
+    rw [jrun_F n inner (gc ++ 93 :: (jrenderF rest ++ after)) _ _ hvi rfl (by simpa using hin _ .key rfl)]
+    -- `]`
+    rw [run_cont (step_key_close_br (P := st.parent) (r := .key) rfl hgc (by simp) (by simp)
+      (by simp) (by simpa using hc.close_after_plain hst _ (paramTok_plain _ _) _))]
+    simp only [List.append_assoc, List.cons_append, List.nil_append, List.length_append, List.length_cons,
+      List.length_nil]
+    rw [set_append_second]
+    have hctxR := fun R => hc.after_plain hst (paramTok isU ⟨(name ++ 93 :: (g1 ++ (k.text ++ (g2 ++ (o.text ++
+      (jrenderV v ++ (jrenderF inner ++ (gc ++ 93 :: (jrenderF rest ++ after))))))))).length, name⟩)
+      (paramTok_plain _ _) R .key rfl
+    simp only [hc.mixed, List.length_append, List.length_cons, List.length_nil] at hctxR
+    rw [jrun_F n rest after _ _ hvr rfl (hctxR _)]
+    congr 1
+    refine St.ext' hst.symm (by simp [hc.mixed]) rfl ?_
+    simp only [jtapeF, List.length_append, List.length_cons, List.length_nil, len_jtapeV, len_jtapeF,
+      List.append_assoc, List.cons_append, List.nil_append]
+    simp only [show (2 : Nat) = 1 + 1 from rfl, show (3 : Nat) = 1 + 1 + 1 from rfl]
+    simp only [Nat.add_assoc, Nat.add_comm, Nat.add_left_comm, Nat.zero_add]
 theorem jrun_Vs (n : Nat) : ∀ (vs : JVals) (after : Bytes) (fuel : Nat) (st : St),
     JValidVs vs after → st.state = .arrayValue → Ctx3 st → st.tape ≠ [] →
     run n (fuel + jstepsVs vs) st (jrenderVs vs ++ after) =
@@ -539,6 +982,16 @@ theorem jrun_Vs (n : Nat) : ∀ (vs : JVals) (after : Bytes) (fuel : Nat) (st : 
 end
 
 /-! ### whole documents -/
+
+theorem elems_len_le : ∀ (es : List (Bytes × Scal)) (a : Bytes), ElemsValid es a →
+    es.length ≤ (renderElems es).length
+  | [], _, _ => by simp
+  | (g, s) :: r, a, hv => by
+    simp only [ElemsValid] at hv
+    have := hv.2.1.text_pos
+    have := elems_len_le r a hv.2.2.2
+    simp only [renderElems, List.length_append, List.length_cons]; omega
+
 
 mutual
 theorem jstepsV_le : ∀ (v : JVal) (a : Bytes), JValidV v a → jstepsV v ≤ 2 * (jrenderV v).length
@@ -565,6 +1018,22 @@ theorem jstepsV_le : ∀ (v : JVal) (a : Bytes), JValidV v a → jstepsV v ≤ 2
     have h3 := jstepsV_le first _ hv.2.2.2.1
     have h4 := jstepsVs_le rest _ hv.2.2.2.2
     simp only [jstepsV, jrenderV, List.length_append, List.length_cons, List.length_nil]; omega
+  | .ghostIn g b1 b2 v, a, hv => by
+    simp only [JValidV] at hv
+    have h3 := jstepsV_le v _ hv.2.2.2.2.2
+    have h4 : (jrenderV v).length = 1 + (jinner v).length := by
+      rw [render_inner hv.2.2.2.1, hv.2.2.2.2.1]; simp; omega
+    simp only [jstepsV, jrenderV, List.length_append, List.length_cons]; omega
+  | .mixed g g0 k g1 o v rest gm m0 elems gc, a, hv => by
+    simp only [JValidV] at hv
+    obtain ⟨_, _, _, _, _, hk, _, hvv, hvr, hm0, _, _, hel⟩ := hv
+    have h1 := hk.text_pos
+    have h2 := o.text_pos
+    have h3 := jstepsV_le v _ hvv
+    have h4 := jstepsF_le rest _ hvr
+    have h5 := hm0.text_pos
+    have h6 := elems_len_le elems _ hel
+    simp only [jstepsV, jrenderV, List.length_append, List.length_cons, List.length_nil]; omega
 theorem jstepsF_le : ∀ (fs : JFields) (a : Bytes), JValidF fs a → jstepsF fs ≤ 2 * (jrenderF fs).length
   | .nil, _, _ => by simp [jstepsF]
   | .cons g0 k g1 o v rest, a, hv => by
@@ -586,6 +1055,28 @@ theorem jstepsF_le : ∀ (fs : JFields) (a : Bytes), JValidF fs a → jstepsF fs
     simp only [JValidF] at hv
     have h4 := jstepsF_le rest _ hv.2.2
     simp only [jstepsF, jrenderF, List.length_append, List.length_cons]; omega
+  | .consHdr g0 k g1 o gh h body rest, a, hv => by
+    simp only [JValidF] at hv
+    obtain ⟨_, _, _, hk, _, hh, _, _, _, hvb, hvr⟩ := hv
+    have h1 := hk.text_pos
+    have h2 := o.text_pos
+    have h5 := hh.text_pos
+    have h3 := jstepsV_le body _ hvb
+    have h4 := jstepsF_le rest _ hvr
+    simp only [jstepsF, jrenderF, List.length_append]; omega
+  | .paramVal g0 isU name g1 val g2 rest, a, hv => by
+    simp only [JValidF] at hv
+    have h4 := jstepsF_le rest _ hv.2.2.2.2.2.2.2
+    simp only [jstepsF, jrenderF, paramOpen, List.length_append, List.length_cons]; omega
+  | .paramObj g0 isU name g1 k g2 o v inner gc rest, a, hv => by
+    simp only [JValidF] at hv
+    obtain ⟨_, _, _, _, _, hk, _, _, hvv, hvi, hvr⟩ := hv
+    have h1 := hk.text_pos
+    have h2 := o.text_pos
+    have h3 := jstepsV_le v _ hvv
+    have h4 := jstepsF_le inner _ hvi
+    have h5 := jstepsF_le rest _ hvr
+    simp only [jstepsF, jrenderF, paramOpen, List.length_append, List.length_cons]; omega
 theorem jstepsVs_le : ∀ (vs : JVals) (a : Bytes), JValidVs vs a → jstepsVs vs ≤ 2 * (jrenderVs vs).length
   | .nil, _, _ => by simp [jstepsVs]
   | .cons v rest, a, hv => by
@@ -623,6 +1114,9 @@ theorem kcnt_V : ∀ v : JVal, kcntV (kcontentV v) = jcntV v
     simp only [kcontentV, kcntV, kcntVs, jcntV, kcnt_Vs rest]; omega
   | .arrC _ first rest _ => by
     simp only [kcontentV, kcntV, kcntVs, jcntV, kcnt_V first, kcnt_Vs rest]; omega
+  | .ghostIn _ _ _ v => by simp only [kcontentV, jcntV, kcnt_V v]
+  | .mixed _ _ _ _ o v rest _ _ elems _ => by
+    simp only [kcontentV, kcntV, kcntF, jcntV, kcnt_V v, kcnt_F rest, List.length_cons, List.length_map]; omega
 theorem kcnt_F : ∀ fs : JFields, kcntF (kcontentF fs) = jcntF fs
   | .nil => rfl
   | .cons _ _ _ o v rest => by simp only [kcontentF, kcntF, jcntF, kcnt_V v, kcnt_F rest]
@@ -630,6 +1124,11 @@ theorem kcnt_F : ∀ fs : JFields, kcntF (kcontentF fs) = jcntF fs
     simp only [kcontentF, kcntF, jcntF, kcnt_V v, kcnt_F rest, Op.toks, List.length_nil]
     try omega
   | .ghost _ _ rest => by simp only [kcontentF, jcntF, kcnt_F rest]
+  | .consHdr _ _ _ o _ _ body rest => by
+    simp only [kcontentF, kcntF, kcntV, jcntF, kcnt_V body, kcnt_F rest]
+  | .paramVal _ _ _ _ _ _ rest => by simp only [kcontentF, kcntF, jcntF, kcnt_F rest]
+  | .paramObj _ _ _ _ _ _ o v inner _ rest => by
+    simp only [kcontentF, kcntF, jcntF, kcnt_V v, kcnt_F inner, kcnt_F rest]; omega
 theorem kcnt_Vs : ∀ vs : JVals, kcntVs (kcontentVs vs) = jcntVs vs
   | .nil => rfl
   | .cons v rest => by simp only [kcontentVs, kcntVs, jcntVs, kcnt_V v, kcnt_Vs rest]
@@ -638,6 +1137,11 @@ end
 theorem erase_array (e : Nat) (m : Bool) : (Tok.array e m).erase = Tok.array e m := rfl
 theorem erase_object (e : Nat) (m : Bool) : (Tok.object e m).erase = Tok.object e m := rfl
 theorem erase_endTok (i : Nat) : (Tok.endTok i).erase = Tok.endTok i := rfl
+
+theorem elemToks_erase : ∀ (es : List (Bytes × Scal)) (a : Bytes),
+    (elemToks es a).map Tok.erase = (es.map (·.2)).map (fun s => (s.tok []).erase)
+  | [], _ => rfl
+  | (_, s) :: r, a => by simp [elemToks, Scal.tok_erase s, elemToks_erase r a]
 
 mutual
 theorem jtapeV_erase : ∀ (v : JVal) (b : Nat) (a : Bytes),
@@ -659,6 +1163,16 @@ theorem jtapeV_erase : ∀ (v : JVal) (b : Nat) (a : Bytes),
       jtapeV_erase first, jtapeVs_erase rest, kcnt_V, kcnt_Vs,
       erase_array, erase_endTok, List.append_assoc, List.cons_append, List.nil_append]
     simp only [Nat.add_assoc, Nat.add_comm, Nat.add_left_comm]
+  | .ghostIn _ _ _ v, b, a => by simp only [jtapeV, kcontentV, jtapeV_erase v]
+  | .mixed _ _ k g1 o v rest gm m0 elems gc, b, a => by
+    have hm : Tok.mixedContainer.erase = Tok.mixedContainer := rfl
+    simp only [jtapeV, kcontentV, ktapeV, ktapeF, kcntF, List.map_append, List.map_cons, List.map_nil,
+      Scal.tok_erase k, Scal.tok_erase m0, Op.toks_erase, jtapeV_erase v, jtapeF_erase rest, kcnt_V, kcnt_F,
+      erase_object, erase_endTok, hm, elemToks_erase, List.length_cons, List.length_map,
+      List.append_assoc, List.cons_append, List.nil_append]
+    have harith : b + 1 + (1 + o.toks.length + jcntV v) + jcntF rest + 2 + elems.length =
+        b + 1 + (1 + o.toks.length + jcntV v + jcntF rest) + 1 + (elems.length + 1) := by omega
+    rw [harith]
 theorem jtapeF_erase : ∀ (fs : JFields) (b : Nat) (a : Bytes),
     (jtapeF fs b a).map Tok.erase = ktapeF (kcontentF fs) b
   | .nil, _, _ => rfl
@@ -671,6 +1185,23 @@ theorem jtapeF_erase : ∀ (fs : JFields) (b : Nat) (a : Bytes),
       Scal.tok_erase k, jtapeV_erase v, jtapeF_erase rest, kcnt_V, Op.toks, List.length_nil,
       List.append_assoc, List.cons_append, List.nil_append, List.append_nil, Nat.add_zero]
   | .ghost _ _ rest, b, a => by simp only [jtapeF, kcontentF, jtapeF_erase rest]
+  | .consHdr _ k g1 o gh h body rest, b, a => by
+    have he : ∀ sl : Slice, (Tok.header sl).erase = Tok.header ⟨0, sl.bytes⟩ := fun _ => rfl
+    simp only [jtapeF, kcontentF, ktapeF, ktapeV, kcntV, List.map_append, List.map_cons, List.map_nil,
+      Scal.tok_erase k, Op.toks_erase, jtapeV_erase body, jtapeF_erase rest, kcnt_V, he,
+      List.append_assoc, List.cons_append, List.nil_append]
+  | .paramVal _ isU name g1 val g2 rest, b, a => by
+    have hq : ∀ X, (Tok.unquoted ⟨X, val.bytes⟩).erase = .unquoted ⟨0, val.bytes⟩ := fun _ => rfl
+    simp only [jtapeF, kcontentF, ktapeF, List.map_append, List.map_cons, List.map_nil, paramTok_erase, hq,
+      jtapeF_erase rest]
+  | .paramObj _ isU name g1 k g2 o v inner gc rest, b, a => by
+    have hq : ∀ X, (Tok.unquoted ⟨X, k.bytes⟩).erase = .unquoted ⟨0, k.bytes⟩ := fun _ => rfl
+    simp only [jtapeF, kcontentF, ktapeF, kcntF, List.map_append, List.map_cons, List.map_nil, paramTok_erase, hq,
+      Op.toks_erase, jtapeV_erase v, jtapeF_erase inner, jtapeF_erase rest, kcnt_V, kcnt_F, erase_object,
+      erase_endTok, List.append_assoc, List.cons_append, List.nil_append]
+    have hk0 : ((Scal.mk false k.bytes).tok []).erase = Tok.unquoted ⟨0, k.bytes⟩ := rfl
+    simp only [hk0, show (2 : Nat) = 1 + 1 from rfl, show (3 : Nat) = 1 + 1 + 1 from rfl]
+    simp only [Nat.add_assoc, Nat.add_comm, Nat.add_left_comm]
 theorem jtapeVs_erase : ∀ (vs : JVals) (b : Nat) (a : Bytes),
     (jtapeVs vs b a).map Tok.erase = ktapeVs (kcontentVs vs) b
   | .nil, _, _ => rfl
@@ -715,8 +1246,8 @@ theorem exampleTree_valid :
     JValidF exampleTree [10] ∧ Blank [10] ∧ hasBom (jrenderF exampleTree ++ [10]) = false := by
   have hb : ∀ c : UInt8, isBoundary c = true → ∀ r, StartsBoundary (c :: r) := fun c h r => .inr ⟨c, r, rfl, h⟩
   have sp : Blank [32] := .ws 32 [] (by decide +kernel) .nil
-  have u : ∀ c : UInt8, isBoundary c = false → isBlank c = false → c ≠ 34 → c ≠ 64 → (Scal.mk false [c]).Valid :=
-    fun c => unq_valid c
+  have u : ∀ c : UInt8, isBoundary c = false → isBlank c = false → c ≠ 34 → c ≠ 64 → (Scal.mk false [c]).ValidX :=
+    fun c a b d e => .inl (unq_valid c a b d e)
   refine ⟨?_, .ws 10 [] (by decide +kernel) .nil, by decide +kernel⟩
   simp only [exampleTree, JValidF, JValidV, JValidVs, jrenderF, jrenderV, jrenderVs, Op.text, Scal.text,
     JVal.isContainer, List.nil_append, List.append_nil, and_true, true_and]
@@ -734,5 +1265,134 @@ theorem exampleTree_valid :
       fun _ => hb 61 (by decide +kernel) _, .nil, .nil, .nil, .nil, .nil,
       u 120 (by decide +kernel) (by decide +kernel) (by decide) (by decide),
       fun _ => hb 125 (by decide +kernel) _, peek_concrete (d := [125, 125, 10]) (by decide +kernel) (by decide +kernel)⟩
+
+/-- C01_faithful, BOM in front of a structured document (fragment 3): the tape is the tape of
+the document, positions included, and the BOM flag is set. -/
+theorem parse_tree_bom (fs : JFields) (gt : Bytes) (hgt : Blank gt) (hv : JValidF fs gt)
+    (hb : hasBom (jrenderF fs ++ gt) = false) :
+    parse (0xef :: 0xbb :: 0xbf :: (jrenderF fs ++ gt)) = .ok (jtapeF fs 0 gt) true := by
+  rw [parse_bom' _ hb, parse_tree fs gt hgt hv hb]; rfl
+
+/-- `c=rgb{1 2} g={{} x}` + newline: a header and a ghost `{}` at the start of a container. -/
+def exampleHdr : JFields :=
+  .consHdr [] ⟨false, [99]⟩ [] .eq [] ⟨false, [114, 103, 98]⟩
+    (.arrS [] [] ⟨false, [49]⟩ (.cons (.scal [32] ⟨false, [50]⟩) .nil) [])
+    (.cons [32] ⟨false, [103]⟩ [] .eq
+      (.ghostIn [] [] [] (.arrS [] [32] ⟨false, [120]⟩ .nil [])) .nil)
+
+example : parse (jrenderF exampleHdr ++ [10]) = .ok (jtapeF exampleHdr 0 [10]) false := by
+  decide +kernel
+
+theorem exampleHdr_valid :
+    JValidF exampleHdr [10] ∧ Blank [10] ∧ hasBom (jrenderF exampleHdr ++ [10]) = false := by
+  have hb : ∀ c : UInt8, isBoundary c = true → ∀ r, StartsBoundary (c :: r) := fun c h r => .inr ⟨c, r, rfl, h⟩
+  have sp : Blank [32] := .ws 32 [] (by decide +kernel) .nil
+  have u : ∀ c : UInt8, isBoundary c = false → isBlank c = false → c ≠ 34 → c ≠ 64 → (Scal.mk false [c]).ValidX :=
+    fun c a b d e => .inl (unq_valid c a b d e)
+  refine ⟨?_, .ws 10 [] (by decide +kernel) .nil, by decide +kernel⟩
+  simp only [exampleHdr, JValidF, JValidV, JValidVs, jrenderF, jrenderV, jrenderVs, jinner, Op.text, Scal.text,
+    JVal.isContainer, JVal.isBraced, JVal.gap, List.nil_append, List.append_nil, and_true, true_and]
+  refine ⟨.nil, .nil, .nil, u 99 (by decide +kernel) (by decide +kernel) (by decide) (by decide),
+    fun _ => hb 61 (by decide +kernel) _, ?_, hb 123 (by decide +kernel) _, ?_, ?_⟩
+  · simp only [Scal.Valid, Bool.false_eq_true, if_false]
+    exact ⟨by decide +kernel, 114, [103, 98], rfl, by decide +kernel, by decide, by decide⟩
+  · exact ⟨.nil, .nil, .nil, u 49 (by decide +kernel) (by decide +kernel) (by decide) (by decide),
+      fun _ => hb 32 (by decide +kernel) _,
+      peek_concrete (d := [50, 125, 32, 103, 61, 123, 123, 125, 32, 120, 125, 10]) (by decide +kernel) (by decide +kernel),
+      ⟨sp, u 50 (by decide +kernel) (by decide +kernel) (by decide) (by decide), fun _ => hb 125 (by decide +kernel) _⟩⟩
+  · exact ⟨sp, .nil, u 103 (by decide +kernel) (by decide +kernel) (by decide) (by decide),
+      fun _ => hb 61 (by decide +kernel) _, .nil, .nil, .nil, .nil, sp, .nil,
+      u 120 (by decide +kernel) (by decide +kernel) (by decide) (by decide),
+      fun _ => hb 125 (by decide +kernel) _,
+      peek_concrete (d := [125, 10]) (by decide +kernel) (by decide +kernel)⟩
+
+/-- `@x = @[1 + x] y=@x` + newline: a variable as key and value, an interpolated expression. -/
+def exampleVar : JFields :=
+  .cons [] ⟨false, [64, 120]⟩ [32] .eq (.scal [32] ⟨false, [64, 91, 49, 32, 43, 32, 120, 93]⟩)
+    (.cons [32] ⟨false, [121]⟩ [] .eq (.scal [] ⟨false, [64, 120]⟩) .nil)
+
+example : parse (jrenderF exampleVar ++ [10]) = .ok (jtapeF exampleVar 0 [10]) false := by
+  decide +kernel
+
+theorem exampleVar_valid :
+    JValidF exampleVar [10] ∧ Blank [10] ∧ hasBom (jrenderF exampleVar ++ [10]) = false := by
+  have hb : ∀ c : UInt8, isBoundary c = true → ∀ r, StartsBoundary (c :: r) := fun c h r => .inr ⟨c, r, rfl, h⟩
+  have sp : Blank [32] := .ws 32 [] (by decide +kernel) .nil
+  have hvar : (Scal.mk false [64, 120]).ValidX :=
+    .inr (.inl ⟨rfl, [120], rfl, by simp, by decide +kernel⟩)
+  have hint : (Scal.mk false [64, 91, 49, 32, 43, 32, 120, 93]).ValidX :=
+    .inr (.inr ⟨rfl, [49, 32, 43, 32, 120], rfl, by decide⟩)
+  refine ⟨?_, .ws 10 [] (by decide +kernel) .nil, by decide +kernel⟩
+  simp only [exampleVar, JValidF, JValidV, jrenderF, jrenderV, Op.text, Scal.text,
+    List.nil_append, List.append_nil, and_true, true_and]
+  exact ⟨.nil, sp, hvar, fun _ => hb 32 (by decide +kernel) _,
+    ⟨sp, hint, fun _ => hb 32 (by decide +kernel) _⟩,
+    sp, .nil, .inl (unq_valid 121 (by decide +kernel) (by decide +kernel) (by decide) (by decide)),
+    fun _ => hb 61 (by decide +kernel) _, ⟨.nil, hvar, fun _ => hb 10 (by decide +kernel) _⟩⟩
+
+/-- `a={b=c d e}` + newline: an object that continues as a bare list. -/
+def exampleMixed : JFields :=
+  .cons [] ⟨false, [97]⟩ [] .eq
+    (.mixed [] [] ⟨false, [98]⟩ [] .eq (.scal [] ⟨false, [99]⟩) .nil [32] ⟨false, [100]⟩
+      [([32], ⟨false, [101]⟩)] []) .nil
+
+example : parse (jrenderF exampleMixed ++ [10]) = .ok (jtapeF exampleMixed 0 [10]) false := by
+  decide +kernel
+
+theorem mix_concrete {E d : Bytes} (hE : skipWs E = some d) (h1 : lexOperator true d = none)
+    (h2 : d.head? ≠ some 123) :
+    ∀ d2, skipWs E = some d2 → lexOperator true d2 = none ∧ d2.head? ≠ some 123 := by
+  intro d2 h; rw [hE] at h; cases h; exact ⟨h1, h2⟩
+
+theorem exampleMixed_valid :
+    JValidF exampleMixed [10] ∧ Blank [10] ∧ hasBom (jrenderF exampleMixed ++ [10]) = false := by
+  have hb : ∀ c : UInt8, isBoundary c = true → ∀ r, StartsBoundary (c :: r) := fun c h r => .inr ⟨c, r, rfl, h⟩
+  have sp : Blank [32] := .ws 32 [] (by decide +kernel) .nil
+  have u : ∀ c : UInt8, isBoundary c = false → isBlank c = false → c ≠ 34 → c ≠ 64 → (Scal.mk false [c]).ValidX :=
+    fun c a b d e => .inl (unq_valid c a b d e)
+  refine ⟨?_, .ws 10 [] (by decide +kernel) .nil, by decide +kernel⟩
+  simp only [exampleMixed, JValidF, JValidV, ElemsValid, jrenderF, jrenderV, renderElems, Op.text, Scal.text,
+    List.nil_append, List.append_nil, and_true, true_and]
+  refine ⟨.nil, .nil, u 97 (by decide +kernel) (by decide +kernel) (by decide) (by decide),
+    fun _ => hb 61 (by decide +kernel) _, .nil, .nil, .nil, sp, .nil,
+    u 98 (by decide +kernel) (by decide +kernel) (by decide) (by decide),
+    fun _ => hb 61 (by decide +kernel) _,
+    ⟨.nil, u 99 (by decide +kernel) (by decide +kernel) (by decide) (by decide), fun _ => hb 32 (by decide +kernel) _⟩,
+    u 100 (by decide +kernel) (by decide +kernel) (by decide) (by decide),
+    fun _ => hb 32 (by decide +kernel) _,
+    mix_concrete (d := [101, 125, 10]) (by decide +kernel) (by decide +kernel) (by decide),
+    sp, u 101 (by decide +kernel) (by decide +kernel) (by decide) (by decide),
+    fun _ => hb 125 (by decide +kernel) _⟩
+
+/-- `[[x] a=b c=d ] [[!y] v ] e=f` + newline: parameter blocks, object and value form. -/
+def exampleParam : JFields :=
+  .paramObj [] false [120] [32] ⟨false, [97]⟩ [] .eq (.scal [] ⟨false, [98]⟩)
+    (.cons [32] ⟨false, [99]⟩ [] .eq (.scal [] ⟨false, [100]⟩) .nil) [32]
+    (.paramVal [32] true [121] [32] ⟨false, [118]⟩ [32]
+      (.cons [32] ⟨false, [101]⟩ [] .eq (.scal [] ⟨false, [102]⟩) .nil))
+
+example : parse (jrenderF exampleParam ++ [10]) = .ok (jtapeF exampleParam 0 [10]) false := by
+  decide +kernel
+
+theorem exampleParam_valid :
+    JValidF exampleParam [10] ∧ Blank [10] ∧ hasBom (jrenderF exampleParam ++ [10]) = false := by
+  have hb : ∀ c : UInt8, isBoundary c = true → ∀ r, StartsBoundary (c :: r) := fun c h r => .inr ⟨c, r, rfl, h⟩
+  have sp : Blank [32] := .ws 32 [] (by decide +kernel) .nil
+  have uv := unq_valid
+  have u : ∀ c : UInt8, isBoundary c = false → isBlank c = false → c ≠ 34 → c ≠ 64 → (Scal.mk false [c]).ValidX :=
+    fun c a b d e => .inl (unq_valid c a b d e)
+  have pn : ∀ c : UInt8, isBoundary c = false → IsParamName [c] := fun c h => ⟨by simp, by simpa using h⟩
+  refine ⟨?_, .ws 10 [] (by decide +kernel) .nil, by decide +kernel⟩
+  simp only [exampleParam, JValidF, JValidV, jrenderF, jrenderV, paramOpen, Op.text, Scal.text,
+    List.nil_append, List.append_nil, and_true, true_and]
+  refine ⟨.nil, sp, .nil, sp, pn 120 (by decide +kernel),
+    uv 97 (by decide +kernel) (by decide +kernel) (by decide) (by decide), hb 61 (by decide +kernel) _,
+    ⟨.nil, u 98 (by decide +kernel) (by decide +kernel) (by decide) (by decide), fun _ => hb 32 (by decide +kernel) _⟩,
+    ⟨sp, .nil, u 99 (by decide +kernel) (by decide +kernel) (by decide) (by decide), fun _ => hb 61 (by decide +kernel) _,
+      ⟨.nil, u 100 (by decide +kernel) (by decide +kernel) (by decide) (by decide), fun _ => hb 32 (by decide +kernel) _⟩⟩, ?_⟩
+  exact ⟨sp, sp, sp, pn 121 (by decide +kernel),
+    uv 118 (by decide +kernel) (by decide +kernel) (by decide) (by decide), hb 32 (by decide +kernel) _,
+    sp, .nil, u 101 (by decide +kernel) (by decide +kernel) (by decide) (by decide), fun _ => hb 61 (by decide +kernel) _,
+    ⟨.nil, u 102 (by decide +kernel) (by decide +kernel) (by decide) (by decide), fun _ => hb 10 (by decide +kernel) _⟩⟩
 
 end Jomini.TextTape
